@@ -49,7 +49,20 @@ def check(net, eqpt, key):
         bm = o.spectrum_bitmap
         if bm.freq_index != list(range(bm.n_min, bm.n_max + 1)) or len(bm.bitmap) != len(bm.freq_index):
             prob.append(f'OMS {o.oms_id}: index not contiguous/unique')
-        cr = find_elements_common_range(o.el_list, eqpt)
+        # the band(s) common to the amplifier models really installed on this OMS (not what the implementation declares)
+        per_amp = []
+        for e in o.el_list:
+            if isinstance(e, Multiband_amplifier):
+                per_amp.append([(x.params.f_min, x.params.f_max) for x in e.amplifiers.values()])
+            elif isinstance(e, Edfa):
+                per_amp.append([(e.params.f_min, e.params.f_max)])
+        if per_amp:
+            common = per_amp[0]
+            for bands in per_amp[1:]:
+                common = [(max(p, r), min(q, t)) for (p, q) in common for (r, t) in bands if max(p, r) < min(q, t)]
+            cr = [{'f_min': p, 'f_max': q} for p, q in sorted(common)]
+        else:
+            cr = find_elements_common_range(o.el_list, eqpt)
         for k, v in enumerate(bm.bitmap):
             n = bm.n_min + k
             inside = any(frequency_to_n(b['f_min']) <= n <= frequency_to_n(b['f_max']) for b in cr)
@@ -76,6 +89,31 @@ net = load_network(EXAMPLE / 'multiband_example_network.json', eq)
 net, _, _ = designed_network(eq, net)
 cases += 1
 check(net, eq, 'multiband_example_network')
+# a multi-band type variety whose library entry offers two alternative C-band models: the element holds the narrow one
+import json as _json
+from gnpy.tools.json_io import load_json, _equipment_from_json, DEFAULT_EXTRA_CONFIG, network_from_json
+cases += 1
+try:
+    eqj = load_json(EXAMPLE / 'eqpt_config_multiband.json')
+    by_name = {e['type_variety']: e for e in eqj['Edfa']}
+    for new, old in (('demo_C_wide', 'std_low_gain_bis'), ('demo_C_narrow', 'std_low_gain_reduced_band'), ('demo_L', 'std_low_gain_L')):
+        entry = deepcopy(by_name[old])
+        entry['type_variety'] = new
+        eqj['Edfa'].append(entry)
+    eqj['Edfa'].append({'type_variety': 'demo_multiband', 'type_def': 'multi_band', 'amplifiers': ['demo_C_wide', 'demo_C_narrow', 'demo_L'],
+                        'allowed_for_design': False})
+    eq2 = _equipment_from_json(eqj, DEFAULT_EXTRA_CONFIG)
+    topo = load_json(EXAMPLE / 'multiband_example_network.json')
+    for el in topo['elements']:
+        if el['uid'] == 'east edfa in Site_B to Site_C':
+            el['type_variety'] = 'demo_multiband'
+            el['amplifiers'] = [{'type_variety': 'demo_C_narrow', 'operational': el['amplifiers'][0]['operational']},
+                                {'type_variety': 'demo_L', 'operational': el['amplifiers'][1]['operational']}]
+    net2 = network_from_json(topo, eq2)
+    net2, _, _ = designed_network(eq2, net2)
+    check(net2, eq2, 'multiband_example_network:alternative-C-models')
+except Exception as e:
+    wit.append({'key': 'multiband_example_network:alternative-C-models', 'problems': [f'{type(e).__name__}: {e}'[:300]]})
 finish('OMS partition / pairing / map marking on designed topologies', 'bounded',
        'gnpy.topology.spectrum_assignment.build_oms_list, reversed_oms',
        f'{len(TOPOLOGIES)} topologies <= 4 ROADM sites x spans {span_sets} x junction none/fused/edfa + multiband example',
